@@ -118,6 +118,8 @@ def run(chk):
                 except Undecided as e:
                     v, d = UNDECIDED, e.cause
                 chk.add("C09.F", key, v, d, where=where_of(bs[0]))
+        # ---------------------------------------------------------------- parsing, byte windows
+        byte_windows(chk, env, kind, K)
         # ---------------------------------------------------------------- parsing
         b = K.method("from_hex_string")
         for n in range(0, nmax + 1):
@@ -235,3 +237,104 @@ def run(chk):
                 chk.add("C09.P", key, v, d, where=where_of(b), sample=dict(obligation=key, verdict=v) if n in (1, 7) and L == L0 else None)
     chk.notes["explanation"] = "token-level abstract interpretation of the printers; parser analysed on symbolic strings partitioned by length with std's from_str_radix as a summary"
     chk.notes["n_range"] = [0, nmax]
+
+
+def byte_windows(chk, env, kind, K):
+    """C09.B: from_hex_string on strings of the right length whose characters are '0' except one or two *symbolic
+    bytes* (7 free bits each: every single-byte character), in both build configurations.  The summary is evaluated on
+    every value of the symbolic bytes and compared with the statement: lower-case hex digits / decimal digits give
+    Ok(the denoted table) when the value fits in 2^n bits and Err otherwise; upper-case A-F give Err or the same table
+    as their lower-case form; every other character gives Err; no value panics."""
+    import itertools as _it
+    from ..absint import Opaque as _Op
+    facts_by_cfg = {"dbg": env.facts}
+    for cfg in ("dbg", "rel"):
+        facts = facts_by_cfg.get(cfg) or F.load(cfg)
+        env2 = env if cfg == "dbg" else Env(facts)
+        K2 = env2.kinds[kind]
+        b = K2.method("from_hex_string")
+        tag = "" if cfg == "dbg" else " [rel]"
+        for n in (0, 1, 2, 3, 6, 7, 8):
+            T, w = table_words(n), hexw(n)
+            L = w * T
+            positions = sorted({0, L - 1, w - 1, min(w, L - 1), L // 2})
+            plans = [(p_,) for p_ in positions]
+            if L >= 2:
+                plans.append((0, L - 1))
+            for pos in plans:
+                key = "%s::from_hex_string n=%d, characters %s symbolic, the others '0'%s" % (K2.adt, n, list(pos), tag)
+                try:
+                    names, byts = [], []
+                    for p_ in range(L):
+                        if p_ in pos:
+                            ats = ["hx%d[%d]" % (p_, k_) for k_ in range(7)]
+                            names += ats
+                            byts.append(W(8, bits=[B.atom(x) for x in ats] + [ZERO]))
+                        else:
+                            byts.append(wconst(8, 48))
+                    it = env2.interp(max_paths=8192)
+                    it.prune = True
+                    space = Space(names)
+                    it.space = space
+                    st = State()
+                    s_arg = _Op("bstr", (tuple(byts),))
+                    with space:
+                        outs = it.call_body(b, ([usize(n)] if kind == "dyn" else []) + [s_arg], st, K2.env(n))
+                    owner = {}
+                    for idx_, o in enumerate(outs):
+                        m_ = space.pc_mask(o.pc)
+                        if m_ is None:
+                            raise Undecided("path condition with top")
+                        while m_:
+                            low = m_ & -m_
+                            owner.setdefault(low.bit_length() - 1, []).append(idx_)
+                            m_ ^= low
+                    v, d = PROVED, ""
+                    for vals in _it.product(range(128), repeat=len(pos)):
+                        named = {}
+                        for p_, bv in zip(pos, vals):
+                            for k_ in range(7):
+                                named["hx%d[%d]" % (p_, k_)] = (bv >> k_) & 1
+                        text = "".join(chr(dict(zip(pos, vals)).get(p_, 48)) for p_ in range(L))
+                        en = [outs[x_] for x_ in owner.get(space.index(named), [])]
+                        if len(en) != 1:
+                            v, d = UNDECIDED, "%d paths enabled for %r" % (len(en), text)
+                            break
+                        o = en[0]
+                        if o.kind != "return":
+                            v, d = REFUTED, "from_hex_string(%s%r) panics (%s)" % ("%d, " % n if kind == "dyn" else "", text, o.info.get("msg"))
+                            break
+                        hexl = all(c in "0123456789abcdef" for c in text)
+                        hexu = all(c in "0123456789abcdefABCDEF" for c in text)
+                        val = int(text, 16) if hexu else None
+                        fits = val is not None and val < (1 << (1 << n))
+                        r_ = o.value
+                        is_ok = isinstance(r_, Agg) and r_.variant == 0
+                        if hexl and fits:
+                            must = "ok"
+                        elif hexu and fits:
+                            must = "ok-or-err"
+                        else:
+                            must = "err"
+                        if not is_ok:
+                            if must == "ok":
+                                v, d = REFUTED, "from_hex_string(%r) returns Err for a well-formed string" % text
+                                break
+                            continue
+                        if must == "err":
+                            v, d = REFUTED, "from_hex_string(%r) returns Ok for a string that does not denote a %d-variable table" % (text, n)
+                            break
+                        asg = {B.ATOMS.get(k_): v_ for k_, v_ in named.items()}
+                        words = K2.words(it, o.state, r_.fields[0])
+                        got = 0
+                        for j, w_ in enumerate(words):
+                            ev = eval_value(w_, asg)
+                            if ev is None:
+                                raise Undecided("table word with top")
+                            got |= ev << (64 * j)
+                        if got != val:
+                            v, d = REFUTED, "from_hex_string(%r) yields the table %x instead of %x" % (text, got, val)
+                            break
+                except Undecided as e:
+                    v, d = UNDECIDED, e.cause
+                chk.add("C09.B", key, v, d, where=where_of(b))
